@@ -16,6 +16,7 @@ DECIDED += "; R2 also the converse: wherever Socket::bound is set the binding in
 DECIDED += "; R4 also: a SYN for the pair of a Closed connection reaches the listener"
 DECIDED += '; R6 also: a port is allocated in the (domain, type) space it is then bound in'
 DECIDED += '; R7 demultiplexing keys are rebuilt from (ip, port): the remote half of every connection-index key and the connected-UDP peer comparison (no IPv6 scope id / flow label)'
+DECIDED += '; a failed connect closes the socket it auto-bound and a closing wildcard listener sweeps its half-open children (shared C13-R3 / R4)'
 ASSUMPTIONS = []
 
 K = "turmoil_net::kernel::Kernel::"
@@ -403,4 +404,6 @@ def run(ctx):
     r4(ctx)
     r5(ctx)
     C13.r2(ctx)
+    C13.r3(ctx)   # a connect that fails (refused, timed out) closes the socket it auto-bound: no dead entry keeps an ephemeral binding
+    C13.r4(ctx)   # closing a wildcard listener sweeps its half-open children: no orphan keeps the listener's port bound
     C19.r3(ctx)
